@@ -84,7 +84,11 @@ def render_module(p: Dict[str, Any], i: int) -> str:
         k = op["k"]
         if k == "from":
             src = "." * op["lvl"] + ".".join(op["m"])
-            lines.append(f"{sp}from {src} import {op['orig']}" + (f" as {op['as']}" if op["as"] != op["orig"] else ""))
+            stmt = f"from {src} import {op['orig']}" + (f" as {op['as']}" if op["as"] != op["orig"] else "")
+            if op.get("try"):
+                lines.append(f"{sp}try:\n{sp}    {stmt}\n{sp}except ImportError:\n{sp}    pass")
+            else:
+                lines.append(f"{sp}{stmt}")
         elif k == "star":
             lines.append(f"{sp}from {'.' * op['lvl'] + '.'.join(op['m'])} import *")
         elif k == "import":
@@ -344,10 +348,9 @@ def dump_system(system: Any, modidx: Dict[str, int]) -> Dict[str, Any]:
     from pydoctor import model
     out: Dict[str, Any] = {}
     for k, o in system.allobjects.items():
-        site = [modidx.get(o.fullName(), modidx.get(k, 0)), 0] if isinstance(o, model.Module) else site_of(o, modidx)
-        if isinstance(o, model.Module) and site[0] == 0:
-            sp = getattr(o, "source_path", None)
-            site = [0, 0]
+        site = site_of(o, modidx)
+        if isinstance(o, model.Module) and site is None:        # module without (parsable) docstring: by name
+            site = [modidx.get(o.fullName(), modidx.get(k, 0)), 0]
         top = o
         while top.parent is not None and not isinstance(top.parent, model.Module):
             top = top.parent
@@ -457,7 +460,8 @@ def walk_cls(c, seen):
     seen.add(tuple(s))
     out["classes"][json.dumps(s)] = {"bases": [site(b) for b in c.__bases__ if b is not object],
                                        "mro": [site(b) for b in c.__mro__ if b is not object],
-                                       "qual": c.__module__ + "." + c.__qualname__}
+                                       "qual": c.__module__ + "." + c.__qualname__,
+                                       "isexc": issubclass(c, BaseException)}
     out["ns"]["c:" + json.dumps(s)] = {k: tgt(v) for k, v in vars(c).items() if not k.startswith("__") and tgt(v)}
     for v in vars(c).values():
         if isinstance(v, type): walk_cls(v, seen)
@@ -608,7 +612,7 @@ def top_level_defs(p: Dict[str, Any], mi: int) -> Dict[str, Tuple[str, int]]:
             continue
         if depth == 0 and op["k"] in ("class", "def", "var"):
             out[op["n"]] = (op["k"], pc)
-        if depth == 0 and op["k"] in ("from",):
+        if depth == 0 and op["k"] in ("from",) and not op.get("try"):      # try: optional import of an absent module
             out.pop(op["as"], None)
         if depth == 0 and op["k"] in ("alias", "import"):
             out.pop(op.get("n") or op.get("as") or op["m"][0], None)
@@ -671,6 +675,12 @@ def expected_reexports(p: Dict[str, Any], multi: bool = False) -> List[Dict[str,
                     found.append({"site": [oi, pc], "kind": kind, "old": f"{tq}.{orig}",
                                   "new": ".".join(mod_path(p, ri - 1)) + "." + as_, "rex": ri, "origin": oi,
                                   "members": members_of(p, oi, pc) if kind == "class" else []})
+                elif as_ in R["all"] and orig not in defs and idx.get(f"{tq}.{orig}") and not (O["hasAll"] and orig in O["all"]):
+                    si = idx[f"{tq}.{orig}"]          # a sub-module re-exported (possibly under another name)
+                    if f"{tq}.{orig}" != ".".join(mod_path(p, ri - 1)) + "." + as_:
+                        found.append({"site": [si, 0], "kind": "module", "old": f"{tq}.{orig}",
+                                      "new": ".".join(mod_path(p, ri - 1)) + "." + as_, "rex": ri, "origin": oi,
+                                      "members": [(n, pc2) for n, (k2, pc2) in top_level_defs(p, si).items()], "member_origin": si})
     by_site: Dict[Tuple[int, int], List[Dict[str, Any]]] = {}
     for f in found:
         by_site.setdefault(tuple(f["site"]), []).append(f)
